@@ -495,7 +495,10 @@ func (e *recEmitter) Emit(s scheduler.State) {
 	if int(r.Inflight) > exec {
 		bad("bodies actually running=%d exceeds reported executing=%d", r.Inflight, exec)
 	}
-	if hooksEnabled && r.HookOngoing != exec {
+	// (the hook points are process-wide: when scheduler goroutines of an
+	// earlier, abandoned run were still alive as this run started, their
+	// events may have been attributed to it; then hook events prove nothing)
+	if hooksEnabled && h.baseSched == 0 && r.HookOngoing != exec {
 		bad("executing=%d differs from dispatched-minus-results=%d", exec, r.HookOngoing)
 	}
 }
@@ -775,4 +778,27 @@ func curGid() int64 {
 		id = id*10 + int64(ch-'0')
 	}
 	return id
+}
+
+// settle is called after a run that could not be judged (watchdog or
+// quiescence deadline on a slow machine). The abandoned scheduler may still be
+// alive, and the hook points are process-wide: its events would be attributed
+// to the next case. Wait until no goroutine runs scheduler code any more;
+// report false if that does not happen, in which case the process must not
+// judge further cases.
+func settle(limit time.Duration) bool {
+	start := time.Now()
+	for time.Since(start) < limit {
+		n := 0
+		for _, g := range dumpGoroutines() {
+			if g.Sched {
+				n++
+			}
+		}
+		if n == 0 {
+			return true
+		}
+		time.Sleep(20 * time.Millisecond)
+	}
+	return false
 }
